@@ -123,6 +123,7 @@ func main() {
 	phase("free", func() { runFree(f, res, drv, mons) })
 	phase("lossy", func() { runLossy(f, res, mons) })
 	phase("traits", func() { runTraits(f, res, mons) })
+	phase("update", func() { runUpdate(f, res, drv, mons) })
 	delete(res.Extra, "ieee_tie")
 	if n := patience.note(); n != "" {
 		res.Notes = append(res.Notes, n)
@@ -197,6 +198,14 @@ func replay(f lib.Flags) int {
 			lib.Fatal(err)
 		}
 		out = b2s(c.monitor(mons))
+	case "cupd":
+		var c ucase
+		if err := reJSON(in, &c); err != nil {
+			lib.Fatal(err)
+		}
+		answer, wr, hookRan := c.run()
+		c.monitor(mons, answer, wr, hookRan)
+		out = answer
 	case "tstream":
 		var c tcase
 		if err := reJSON(in, &c); err != nil {
